@@ -27,6 +27,8 @@ RULE = (
     "kept in between): the rewritten client must not raise and every object must be identical (is; == for immutable "
     "values). non-trivial = the driver changed the client"
 )
+RULE += (" plus 23 stdlib clients on local un-aliased dotted imports whose root name is bound otherwise (parameter, global, def, class), dotted imports used through "
+         "their root only, and two imports binding one name.")
 ASSUMPTIONS = [
     "names that did not resolve before carry no obligation; clients whose original does not run are dropped (counted)",
     "rules that emit a reference to a not-yet-imported module in isolation are C02's subject; here only import statements matter",
